@@ -401,6 +401,52 @@ class Check(Property):
                     v.append(f"C06 10 degC {name} 5 degC without autoconvert: {got}, OffsetUnitCalculusError expected (as for /)")
                 if auto and got != ref:
                     v.append(f"C06 10 degC {name} 5 degC in autoconvert mode: {got}; the same temperatures in kelvin give {ref}")
+        # a bare Unit divided by / dividing a number follows the rule of the quantity 1 * unit (refused for offset and
+        # logarithmic units, or through base units in autoconvert mode)
+        for auto in (False, True):
+            r = regs.fresh("float", autoconvert_offset_to_baseunit=auto)
+
+            def res(f):
+                try:
+                    q = f()
+                    return ("ok", round(float(q.magnitude), 9), str(q.units))
+                except Exception as exc:  # noqa: BLE001
+                    return ("err", type(exc).__name__)
+            for un in ("degree_Celsius", "degree_Fahrenheit", "decibel", "meter"):
+                uu = getattr(r, un)
+                for name, fu, fq in (("unit / 2", lambda: uu / 2, lambda: r.Quantity(1, uu) / 2),
+                                     ("2 / unit", lambda: 2 / uu, lambda: 2 / r.Quantity(1, uu))):
+                    got, ref = res(fu), res(fq)
+                    if got != ref:
+                        v.append(f"C06 {name} with unit = {un}, autoconvert={auto}: {got}; the quantity 1 {un} gives {ref}")
+        # autoconvert mode: a compound unit holding one offset unit goes through base units WITH its other factors
+        r = regs.fresh("float", autoconvert_offset_to_baseunit=True)
+        for uc_, dst, want in (({"degree_Celsius": 1, "millimeter": 1, "meter": -1}, "kelvin", 0.28315),
+                               ({"degree_Celsius": 1, "meter": 1}, "kelvin * meter", 283.15),
+                               ({"degree_Fahrenheit": 1, "second": -1}, "kelvin / second", (50 + 459.67) * 5 / 9)):
+            x = 50.0 if "degree_Fahrenheit" in uc_ else 10.0
+            try:
+                got = r.Quantity(x, r.UnitsContainer(uc_)).to(dst).magnitude
+                if abs(got - want) > 1e-9 * abs(want):
+                    v.append(f"C06 autoconvert: {x} {uc_} -> {dst} = {got}, through base units it is {want}")
+            except Exception as exc:  # noqa: BLE001
+                v.append(f"C06 autoconvert: {x} {uc_} -> {dst} raised {type(exc).__name__}: {exc}")
+        try:
+            got = (r.Quantity(10.0, r.UnitsContainer({"degree_Celsius": 1, "meter": 1})) ** 2).to("kelvin**2 * meter**2").magnitude
+            if abs(got - 283.15 ** 2) > 1e-6:
+                v.append(f"C06 autoconvert: (10 degC*m)**2 = {got}, through base units it is {283.15 ** 2}")
+        except Exception as exc:  # noqa: BLE001
+            v.append(f"C06 autoconvert: (10 degC*m)**2 raised {type(exc).__name__}: {exc}")
+        # the difference of two logarithmic quantities: no delta counterpart of a logarithmic unit exists
+        r = regs.fresh("float")
+        try:
+            d = r.Quantity(5.0, "decibel") - r.Quantity(10.0, "decibel")
+            bad = [k for k in d._units if k not in r._units and k != "dimensionless"]
+            if bad:
+                v.append(f"C06 5 dB - 10 dB = {d!r}: the unit {bad[0]} is not defined (neither refused nor a usable quantity) "
+                         f"[known finding F75]")
+        except Exception:  # noqa: BLE001
+            pass
         return v
 
     def oracle_log(self, c):
